@@ -138,7 +138,11 @@ def correspondence(ctx):
         "(class dsse-payload-not-one-document) signed with Go's crypto directly over the PAE of exactly their payload bytes, the payload being one link / "
         "layout object alone or with white space before / after it (one document: must load, verify, and GetPayload must be that document) or the object "
         "followed by a second (different or the same) object, by a newline and an object, by garbage, by ] } , null, preceded by junk or by another object, "
-        "wrapped in an array, written as a JSON string, truncated (not exactly one JSON object: LoadMetadata must refuse). value level: random generic values "
+        "wrapped in an array, written as a JSON string, truncated (not exactly one JSON object: LoadMetadata must refuse); legacy files (class "
+        "signed-member-case-variants) with the exact member \"signed\": A, signatures over A and over B, and a stray top-level member differing from "
+        "\"signed\" only in case (Signed, SIGNED, sIgned, signeD, U+017F-igned; also Signatures) holding another link/layout B, before / after \"signed\", "
+        "after \"signatures\", first, or twice: through LoadMetadata and Metablock.Load the signable bytes must be the reference canonical form of A, the "
+        "signature over A must verify and the one over B must not (the unchanged repository looks members up by exact name and ignores the stray one). value level: random generic values "
         "through cjson.EncodeCanonical and through SetPayload of a link carrying them, and JSON texts (half of them damaged) through "
         "json.Valid+Decoder(UseNumber), against the extracted model. non-trivial = every case (no case is a constant input); distinct = distinct input JSON / input line")
     _value_level(ctx, binp, 20000 if ctx.tier == 'quick' else 600000, corr)
